@@ -190,7 +190,7 @@ def not_(a):
     if a.op == "not":
         return a.args[0]
     if a.w == 1:
-        neg = {"eq": "ne", "ne": "eq", "ult": "uge", "uge": "ult", "ule": "ugt", "ugt": "ule",
+        neg = {"str_eq": "str_ne", "str_ne": "str_eq", "eq": "ne", "ne": "eq", "ult": "uge", "uge": "ult", "ule": "ugt", "ugt": "ule",
                "slt": "sge", "sge": "slt", "sle": "sgt", "sgt": "sle"}
         if a.op in neg:
             return E(neg[a.op], a.args, 1)
@@ -344,6 +344,16 @@ def bit_not(a):
 
 def bit_gamma(c, a, b):
     """c is an E of width 1 (non-constant)."""
+    # inside the arms the condition itself is known: (c ? c : y) = (c ? 1 : y), (c ? x : c) = (c ? x : 0), same for !c
+    nc = not_(c)
+    if a == c:
+        a = 1
+    elif a == nc:
+        a = 0
+    if b == c:
+        b = 0
+    elif b == nc:
+        b = 1
     if a == b:
         return a
     if a == 1 and b == 0:
